@@ -3,7 +3,10 @@ package main
 // Kind "faults" (C14): one scripted exchange of a REAL upstream.NewUpstream(...) against a fake server on loopback
 // whose per-connection behaviour is given by the case line.
 //
-//   case:   <id> tr=<udp|tcp|tcpp|tls|tlsp|doh> pool=<tok,..|-> dial=<tok,..|-> dl=<ms>
+//   case:   <id> tr=<udp|tcp|tcpp|tls|tlsp|doh> pool=<tok,..|-> dial=<tok,..|-> dl=<ms> [conc=<n>]
+//     conc : n concurrent measured exchanges (pipelined transports: all n wait on the ONE pooled connection; the server
+//            applies fin / rst / garbage only once all n queries have arrived). res / when are then the common value
+//            of all n exchanges or MIXED; dials and att are not reported.
 //     pool : behaviour of the connections that are in the transport's pool when the measured exchange starts
 //            (established by len(pool) concurrent warm-up exchanges that the server answers normally):
 //              ok | silent | half | garbage | fin | rst      what the server does when the NEXT query arrives on it
@@ -88,6 +91,7 @@ func c14ServerCert() (tls.Certificate, error) {
 // ---------------------------------------------------------------- fake server
 
 type c14Conn struct {
+	mq    int // queries received in the measured phase
 	raw   *net.TCPConn
 	c     net.Conn // raw or the TLS session over it
 	idx   int
@@ -104,6 +108,7 @@ type c14Server struct {
 	tlsCfg *tls.Config
 	pool   []string
 	dial   []string
+	conc   int
 
 	mu          sync.Mutex
 	phase       int // 0 warm-up, 1 measured
@@ -256,7 +261,12 @@ func (s *c14Server) handle(cc *c14Conn) {
 			c.Write(c14Frame(hx.BuildReply(q, false, 0, [4]byte{9, 9, 9, 9}, 60)))
 			continue
 		}
-		switch s.behaviourFor(cc) {
+		beh := s.behaviourFor(cc)
+		cc.mq++
+		if !cc.isNew && cc.mq < s.conc && (beh == "fin" || beh == "rst" || beh == "garbage") {
+			continue // wait until every concurrent exchange is waiting on this connection
+		}
+		switch beh {
 		case "ok":
 			c.Write(c14Frame(hx.BuildReply(q, false, 0, [4]byte{1, 4, 1, 4}, 60)))
 		case "silent":
@@ -537,8 +547,12 @@ func faultsCase(f map[string]string) string {
 	pool := c14Tokens(f["pool"])
 	dial := c14Tokens(f["dial"])
 	dl := time.Duration(hx.MustAtoi(f["dl"])) * time.Millisecond
+	conc := 1
+	if f["conc"] != "" {
+		conc = hx.MustAtoi(f["conc"])
+	}
 
-	s := &c14Server{tr: tr, pool: pool, dial: dial, done: make(chan struct{}), resume: make(chan struct{}),
+	s := &c14Server{tr: tr, pool: pool, dial: dial, conc: conc, done: make(chan struct{}), resume: make(chan struct{}),
 		warmRelease: make(chan struct{}), warmWant: len(pool), udpPooled: map[string]bool{}, udpNew: map[string]int{}}
 	s.useTLS = tr == "tls" || tr == "tlsp"
 	cert, err := c14ServerCert()
@@ -688,46 +702,63 @@ func faultsCase(f map[string]string) string {
 		nerr int
 		el   time.Duration
 	}
-	rc := make(chan result, 1)
-	go func() {
-		t0 := time.Now() // before the context exists: a return caused by the deadline always has el >= dl
-		ctx, cancel := context.WithTimeout(context.Background(), dl)
-		defer cancel()
-		r, err := u.ExchangeContext(ctx, hx.BuildQuery(0xC014, name, 1, 1, true))
-		el := time.Since(t0)
-		ok := err == nil && r != nil && r.Header.ID == 0xC014 && len(r.Answers) == 1
-		rc <- result{ok: ok, nerr: c14CountErrs(err), el: el}
-	}()
-	var res result
+	rc := make(chan result, conc)
+	for i := 0; i < conc; i++ {
+		go func(i int) {
+			t0 := time.Now() // before the context exists: a return caused by the deadline always has el >= dl
+			ctx, cancel := context.WithTimeout(context.Background(), dl)
+			defer cancel()
+			id := uint16(0xC014 + i)
+			r, err := u.ExchangeContext(ctx, hx.BuildQuery(id, name, 1, 1, true))
+			el := time.Since(t0)
+			ok := err == nil && r != nil && r.Header.ID == id && len(r.Answers) == 1
+			rc <- result{ok: ok, nerr: c14CountErrs(err), el: el}
+		}(i)
+	}
+	var all []result
 	hang := false
-	select {
-	case res = <-rc:
-	case <-time.After(dl + 5*time.Second):
-		hang = true
+	tmo := time.After(dl + 5*time.Second)
+	for len(all) < conc && !hang {
+		select {
+		case r := <-rc:
+			all = append(all, r)
+		case <-tmo:
+			hang = true
+		}
 	}
 	time.Sleep(20 * time.Millisecond)
 	nd := int(dials.Load() - d0)
 	dstr := fmt.Sprint(nd)
-	if tr == "doh" {
+	if tr == "doh" || conc > 1 {
 		dstr = "-"
 	}
 	if hang {
 		return fmt.Sprintf("res=HANG dials=%s att=- when=dl late=1", dstr)
 	}
-	cls, att := "ERR", fmt.Sprint(res.nerr)
-	if res.ok {
-		cls, att = "REPLY", "-"
+	cls, when, late, att := "", "", 0, "-"
+	for _, res := range all {
+		c, w := "ERR", "early"
+		if res.ok {
+			c = "REPLY"
+		}
+		if res.el >= dl {
+			w = "dl"
+		}
+		if res.el > dl+c14Slack {
+			late = 1
+		}
+		if cls == "" {
+			cls, when = c, w
+		}
+		if cls != c {
+			cls = "MIXED"
+		}
+		if when != w {
+			when = "mixed"
+		}
 	}
-	if tr == "doh" {
-		att = "-"
-	}
-	when := "early"
-	if res.el >= dl {
-		when = "dl"
-	}
-	late := 0
-	if res.el > dl+c14Slack {
-		late = 1
+	if conc == 1 && tr != "doh" && !all[0].ok {
+		att = fmt.Sprint(all[0].nerr)
 	}
 	return fmt.Sprintf("res=%s dials=%s att=%s when=%s late=%d", cls, dstr, att, when, late)
 }
